@@ -18,7 +18,7 @@ import (
 func init() {
 	fw.Register(&fw.Check{
 		ID: "C17", Level: "model_checking",
-		Rule: "ALL strings of length 1..4 (quick) / 1..5 (thorough) over {a \\ \" # / * space tab @ [ é} written in double quotes (\" and \\ escaped) in every parameter host (Title, Version, BaseUrl, Query example, method path, URL path, JSON-RPC method name): the catalog field must equal the string; every such string that needs no quotes also written bare: same result; malformed forms (unterminated quote at every length, backslash before every other alphabet character at every position): rejected at that byte; the unescape function itself against the reference on all strings of length <= 6 / 7; non-trivial = string containing a quote, backslash, blank or comment/annotation character; distinct = distinct (host, string) ; every ASCII character but the line ends and one UTF-8 character for every (lead byte, second byte) pair, inside a value and at its start, quoted and bare",
+		Rule: "ALL strings of length 1..4 (quick) / 1..5 (thorough) over {a \\ \" # / * space tab @ [ é} written in double quotes (\" and \\ escaped) in every parameter host (Title, Version, BaseUrl, Query example, method path, URL path, JSON-RPC method name): the catalog field must equal the string; every such string that needs no quotes also written bare: same result; malformed forms (unterminated quote at every length, backslash before every other alphabet character at every position): rejected at that byte; the unescape function itself against the reference on all strings of length <= 6 / 7; non-trivial = string containing a quote, backslash, blank or comment/annotation character; distinct = distinct (host, string) ; every ASCII character but the line ends and one UTF-8 character for every (lead byte, second byte) pair, inside a value and at its start, quoted and bare ; every run of 1..2 blanks and tabs between keyword and parameter (values of length <= 2, quoted and bare): same reading",
 		Run:  runC17, QuickCap: 8 * time.Minute, ThoroughCap: 40 * time.Minute,
 	})
 }
